@@ -371,7 +371,7 @@ func reverseHex(val string) string {
 }
 
 func nativeCircuitEmpty(src string) bool {
-	for _, f := range []string{vrt.Repo+"/pkg/crypto/sha512/sha512.circ", vrt.Repo+"/pkg/crypto/sha512/sha512.mpclc"} {
+	for _, f := range []string{vrt.Repo + "/pkg/crypto/sha512/sha512.circ", vrt.Repo + "/pkg/crypto/sha512/sha512.mpclc"} {
 		if st, err := os.Stat(f); err == nil && st.Size() == 0 && strings.Contains(src, "sha512") {
 			return true
 		}
@@ -444,10 +444,26 @@ func c03Generated(cs *vrt.Case, r *vrt.Rng, cfg mpclgen.Config) {
 		cfg.Widths = []int{1, 2, 3, 4, 5}
 		cfg.Args = 2
 	}
+	// every fifth program is compiled for the GMW target (the other code
+	// path of every arithmetic builder); without division there: the GMW
+	// divider's inexactness is a known finding of C07/C09
+	gmw := cs.Idx%5 == 2
+	mk := func() *utils.Params {
+		if !gmw {
+			return nil
+		}
+		pp := utils.NewParams()
+		pp.Target = utils.TargetGMW
+		return pp
+	}
+	if gmw {
+		cfg.Division = false
+		cs.Count("generated_compiled_for_GMW", 1)
+	}
 	p := mpclgen.Generate(r, cfg)
 	cs.Count("generated", 1)
-	c, ssa, err, pan := compileWithSSA(p.Src, nil, nil)
-	desc := map[string]any{"kind": "generated", "program": p.Src}
+	c, ssa, err, pan := compileWithSSA(p.Src, mk(), nil)
+	desc := map[string]any{"kind": "generated", "program": p.Src, "target_gmw": gmw}
 	cs.SetSample(map[string]any{"kind": "generated", "program": trunc(p.Src, 1500)})
 	if pan != nil {
 		if !pan.InMPC {
@@ -497,14 +513,14 @@ func c03Generated(cs *vrt.Case, r *vrt.Rng, cfg mpclgen.Config) {
 				return false
 			}
 			budget--
-			c2, err, pan := compileMPCL(src, nil, nil)
+			c2, err, pan := compileMPCL(src, mk(), nil)
 			if err != nil || pan != nil || c2 == nil {
 				return false
 			}
 			w2, _, e2 := c03Compare(p, c2, [][]mpclgen.Val{w.args})
 			return e2 == nil && w2 != nil && w2.args != nil
 		})
-		if c2, err, pan := compileMPCL(p.Src, nil, nil); err == nil && pan == nil {
+		if c2, err, pan := compileMPCL(p.Src, mk(), nil); err == nil && pan == nil {
 			if w2, _, e2 := c03Compare(p, c2, [][]mpclgen.Val{w.args}); e2 == nil && w2 != nil {
 				w = w2
 			}
@@ -519,7 +535,7 @@ func c03Generated(cs *vrt.Case, r *vrt.Rng, cfg mpclgen.Config) {
 	desc["features"] = featureList(p)
 	// classify: does the circuit implement the program without block scopes?
 	if p.Feat["shadow"] && w.args != nil {
-		if c2, err, pan := compileMPCL(p.Src, nil, nil); err == nil && pan == nil {
+		if c2, err, pan := compileMPCL(p.Src, mk(), nil); err == nil && pan == nil {
 			flat, _ := refc.EvalFlat(c2, []*big.Int{flattenArgs(w.args)})
 			if res, err := p.RunFlat(w.args); err == nil && flat != nil && flat[0].Cmp(flattenArgs(res)) == 0 {
 				cs.Violate("C03|shadowing|inner-var-assigns-outer-variable", "a variable declared in an inner block with the name of an outer variable overwrites the outer one: "+w.where, desc)
